@@ -118,8 +118,13 @@ static size_t g_len, g_p;
 static void gen_begin(void) {
     g_len = nondet_size_t();
     __CPROVER_assume(g_len >= 1 && g_len <= AWS_DATE_TIME_STR_MAX_LEN);
+#ifdef GEN_FIXED
+    static uint8_t fixed[AWS_DATE_TIME_STR_MAX_LEN];
+    g_txt = fixed;
+#else
     g_txt = malloc(g_len);
     __CPROVER_assume(g_txt != NULL);
+#endif
     g_p = 0;
 }
 static void put(uint8_t c) {
